@@ -42,7 +42,7 @@ fn main() {
                 let (tx, rx) = std::sync::mpsc::channel();
                 let sh2 = sh.clone();
                 let sc2 = sc.clone();
-                std::thread::spawn(move || { let line = cvh::ctl::run_scenario(&sc2, sh2); tx.send(line).ok(); });
+                std::thread::spawn(move || { let line = cvh::ctl::run_scenario_twin(&sc2, sh2); tx.send(line).ok(); });
                 match rx.recv_timeout(Duration::from_secs(if thorough { 60 } else { 20 })) {
                     Ok(mut line) => { line["case"] = json!(case); let mut o = out.lock(); writeln!(o, "{}", line).unwrap(); }
                     Err(_) => {
